@@ -43,6 +43,7 @@ type yyLex struct {
 	error         bool       // set if an error has ocurred
 	errorString   string     // the string of the error
 	indentStack   []int      // indent stack to control INDENT / DEDENT tokens
+	altIndents    []int      // the indent stack measured with a tab worth one space
 	state         int        // current state of state machine
 	currentIndent string     // whitespace at start of current line
 	interactive   bool       // set if mode "single" reading interactive input
@@ -65,6 +66,7 @@ func NewLex(r io.Reader, filename string, mode py.CompileMode) (*yyLex, error) {
 		reader:      bufio.NewReader(r),
 		filename:    filename,
 		indentStack: []int{0},
+		altIndents:  []int{0},
 		state:       readString,
 	}
 	switch mode {
@@ -158,13 +160,6 @@ func countIndent(s string) int {
 	if len(s) == 0 {
 		return 0
 	}
-	// FIXME these rules don't actually implement the python3
-	// lexing rules which state
-	//
-	// Indentation is rejected as inconsistent if a source file
-	// mixes tabs and spaces in a way that makes the meaning
-	// dependent on the worth of a tab in spaces; a TabError is
-	// raised in that case
 	indent := 0
 	for _, c := range s {
 		switch c {
@@ -192,6 +187,24 @@ func countIndent(s string) int {
 
 	}
 	return indent
+}
+
+// Finds the length of a space and tab seperated string with a tab
+// worth one space only
+//
+// Indentation is rejected as inconsistent if a source file mixes
+// tabs and spaces in a way that makes the meaning dependent on the
+// worth of a tab in spaces; a TabError is raised in that case.  To
+// detect this every indent is measured twice, with countIndent and
+// with this, and the two measures have to order the lines alike.
+func countAltIndent(s string) int {
+	// a formfeed restarts the count
+	return len(s) - (strings.LastIndexByte(s, '\f') + 1)
+}
+
+// Raise the error for indentation which depends on the worth of a tab
+func tabError() {
+	panic(py.ExceptionNewf(py.TabError, "inconsistent use of tabs and spaces in indentation"))
 }
 
 var operators = map[string]int{
@@ -394,6 +407,7 @@ func (x *yyLex) queueDedents() {
 		x.queue(DEDENT)
 	}
 	x.indentStack = x.indentStack[:1]
+	x.altIndents = x.altIndents[:1]
 }
 
 // The parser calls this method to get each new token.  This
@@ -459,12 +473,20 @@ func (x *yyLex) Lex(yylval *yySymType) (ret int) {
 			}
 			// See if indent has changed and issue INDENT / DEDENT
 			indent := countIndent(x.currentIndent)
+			altIndent := countAltIndent(x.currentIndent)
 			i := len(x.indentStack) - 1
 			indentStackTop := x.indentStack[i]
 			if indent == indentStackTop {
+				if altIndent != x.altIndents[i] {
+					tabError()
+				}
 				continue
 			} else if indent > indentStackTop {
+				if altIndent <= x.altIndents[i] {
+					tabError()
+				}
 				x.indentStack = append(x.indentStack, indent)
+				x.altIndents = append(x.altIndents, altIndent)
 				yylval.pos.ColOffset = 0 // Indents start at 0
 				return INDENT
 			} else {
@@ -477,7 +499,11 @@ func (x *yyLex) Lex(yylval *yySymType) (ret int) {
 				x.SyntaxError("Inconsistent indent")
 				return eof
 			foundIndent:
+				if altIndent != x.altIndents[i] {
+					tabError()
+				}
 				x.indentStack = x.indentStack[:i+1]
+				x.altIndents = x.altIndents[:i+1]
 				return x.dequeue()
 			}
 		case parseTokens:
